@@ -55,6 +55,8 @@ class Evaluator:
 
     def decide(self, key, zcond=None):
         """oracle decision; `zcond` (a z3 Bool) ties decisions about symbolic leaves (operators, names, flags) to the solver"""
+        if isinstance(key, tuple) and key and key[0] == 'nullish' and isinstance(key[1], tuple) and key[1] and key[1][0] in ('lit', 'arr', 'obj', 'closure', 'tpl', 'pure'):
+            return key[1][:2] in (('lit', 'undefined'), ('lit', 'null'))
         r = self.dmap.get(repr(key))
         if r is None:
             raise NeedDecision(key)
